@@ -72,4 +72,18 @@ def withinSingle (I : Interval) (obs fcst : Vec) : XR :=
     if n = 0 then .nan else .fin ((hits : Rat) / (n : Rat) * 100)
   | _ => .nan
 
+/-- `FromField(field, aux).compute_single` for a value field other than obs / fcst (`verif.field.Other`):
+the requested fields are the value field, then the subsetting field under `-x obs` / `-x fcst`
+(`axisCol`), then the `aux` field ("also pull values for this field to ensure only common data points
+are returned"); the values of the cases valid in ALL of them, restricted to the cases whose axis value
+lies in the interval, go to the aggregator (an aggregator that raises on an empty selection: NaN). -/
+def fromFieldAuxSingle (agg : Vec → XR) (raisesOnEmpty : Bool) (I : Interval)
+    (vals : Vec) (axisCol aux : Option Vec) : XR :=
+  let cols := getCols ([vals] ++ axisCol.toList ++ aux.toList)
+  let v := cols.headD []
+  let sel := match axisCol with
+    | some _ => selectWithin I (cols.getD 1 []) v
+    | none => v
+  if sel.isEmpty && raisesOnEmpty then .nan else agg sel
+
 end VerifModel
